@@ -426,8 +426,12 @@ func (cc *checkCtx) checkProperty(prop string, seed int, known []KnownFinding, b
 		if !hasTag(fc.Tags, prop) {
 			continue
 		}
-		name := fmt.Sprintf("type:%s/final:%s", shortPkg(fc.Type[:strings.LastIndex(fc.Type, ".")])+fc.Type[strings.LastIndex(fc.Type, "."):], fc.Field)
-		o := &Oblig{Name: name, Class: "final", Tags: fc.Tags, Pos: fc.Pos, Clause: "final " + fc.Field, Unit: "module", Paths: 1}
+		kind := "final"
+		if fc.Kind != "" {
+			kind = fc.Kind
+		}
+		name := fmt.Sprintf("type:%s/%s:%s", shortPkg(fc.Type[:strings.LastIndex(fc.Type, ".")])+fc.Type[strings.LastIndex(fc.Type, "."):], kind, fc.Field)
+		o := &Oblig{Name: name, Class: "final", Tags: fc.Tags, Pos: fc.Pos, Clause: kind + " " + fc.Field, Unit: "module", Paths: 1}
 		rec := &obRecord{o: o, u: &Unit{P: p, Name: "module"}}
 		if len(fc.Sites) > 0 {
 			o.Failures = []*Failure{{Result: "syntactic", Goal: strings.Join(fc.Sites, "; ")}}
